@@ -2091,9 +2091,10 @@ Definition P2 (p : obj) : res obj :=
     let* l := jreq "lumped_losses" p in let* l' := reorder_keys "position" l in Ok (jset "lumped_losses" l' p)
   else Ok p.
 Definition P4 (ty : string) (p : obj) : res obj := if is_roadm ty then degree_params p else Ok p.
-Definition P5 (ty : string) (p : obj) : res obj := if is_roadm ty then design_band_params p else Ok p.
+Definition is_band (ty : string) : bool := String.eqb K_roadm ty || String.eqb K_trx ty.
+Definition P5 (ty : string) (p : obj) : res obj := if is_band ty then design_band_params p else Ok p.
 Definition Q1 (ty : string) (p : obj) : res obj := if is_roadm ty then back_degree_params p else Ok p.
-Definition Q2 (ty : string) (p : obj) : res obj := if is_roadm ty then back_design_band_params p else Ok p.
+Definition Q2 (ty : string) (p : obj) : res obj := if is_band ty then back_design_band_params p else Ok p.
 Definition PF (ty : string) : list (obj -> res obj) := [P2; P4 ty; P5 ty; loss_params; raman_params].
 Definition PB (ty : string) : list (obj -> res obj) := [Q1 ty; Q2 ty; back_loss_params; back_raman_params].
 
@@ -2118,6 +2119,22 @@ Lemma roadm_guard : forall x ty p, has_tp x ty p -> roadm_with_params x = Ok (is
 Proof.
   intros x ty p [H1 H2]. unfold roadm_with_params, jreq, jhas. rewrite H1, H2. cbn [bind is_str].
   unfold is_roadm. now rewrite andb_true_r.
+Qed.
+
+Lemma band_guard : forall x ty p, has_tp x ty p -> band_elem_with_params x = Ok (is_band ty).
+Proof.
+  intros x ty p [H1 H2]. unfold band_elem_with_params, jreq, jhas. rewrite H1, H2. cbn [bind is_str].
+  unfold is_band. now rewrite andb_true_r.
+Qed.
+
+Lemma lift_guarded_gen : forall (guard : obj -> res bool) (b : bool) (g : obj -> res obj) x ty p p', has_tp x ty p ->
+  guard x = Ok b -> (if b then g p else Ok p) = Ok p' ->
+  (let* c := guard x in if c then upd_sub K_params g x else Ok x) = Ok (jset K_params (JObj p') x).
+Proof.
+  intros guard b g x ty p p' Ht Hg H. rewrite Hg. cbn [bind]. destruct Ht as [H1 H2].
+  destruct b.
+  - unfold upd_sub, jreq. rewrite H2. cbn [bind as_obj]. now rewrite H.
+  - injection H as <-. now rewrite (jset_same _ _ _ H2).
 Qed.
 
 Lemma lift_guarded : forall (g : obj -> res obj) x ty p p', has_tp x ty p ->
@@ -2157,7 +2174,7 @@ Proof.
   pose proof (has_tp_set x ty p pa Ht) as Ta.
   unfold degree_elem. rewrite (lift_guarded degree_params _ ty pa pb Ta E4). cbn [bind]. rewrite jset_jset.
   pose proof (has_tp_set x ty p pb Ht) as Tb.
-  unfold design_band_elem. rewrite (lift_guarded design_band_params _ ty pb pc Tb E5). cbn [bind]. rewrite jset_jset.
+  unfold design_band_elem. rewrite (lift_guarded_gen band_elem_with_params (is_band ty) design_band_params _ ty pb pc Tb (band_guard _ _ _ Tb) E5). cbn [bind]. rewrite jset_jset.
   pose proof (has_tp_set x ty p pc Ht) as Tc.
   rewrite (lift_with_params loss_params _ ty pc pd Tc E6). cbn [bind]. rewrite jset_jset.
   pose proof (has_tp_set x ty p pd Ht) as Td.
@@ -2176,7 +2193,7 @@ Proof.
   unfold chain in Hc; cbn in Hc. injection Hc as <-.
   unfold back_degree_elem. rewrite (lift_guarded back_degree_params _ ty p1 pa Ht E1). cbn [bind].
   pose proof (has_tp_set x ty p1 pa Ht) as Ta.
-  unfold back_design_band_elem. rewrite (lift_guarded back_design_band_params _ ty pa pb Ta E2). cbn [bind]. rewrite jset_jset.
+  unfold back_design_band_elem. rewrite (lift_guarded_gen band_elem_with_params (is_band ty) back_design_band_params _ ty pa pb Ta (band_guard _ _ _ Ta) E2). cbn [bind]. rewrite jset_jset.
   pose proof (has_tp_set x ty p1 pb Ht) as Tb.
   rewrite (lift_with_params back_loss_params _ ty pb pc Tb E3). cbn [bind]. rewrite jset_jset.
   pose proof (has_tp_set x ty p1 pc Ht) as Tc.
@@ -2359,8 +2376,10 @@ Proof.
   intros x ty H1 H2.
   assert (G : roadm_with_params x = Ok false).
   { unfold roadm_with_params, jreq, jhas. rewrite H1, H2. cbn [bind]. now rewrite andb_false_r. }
+  assert (G2 : band_elem_with_params x = Ok false).
+  { unfold band_elem_with_params, jreq, jhas. rewrite H1, H2. cbn [bind]. now rewrite andb_false_r. }
   unfold reorder_in, degree_elem, design_band_elem, back_degree_elem, back_design_band_elem, with_params.
-  rewrite H2, G. cbn [bind]. repeat split; reflexivity.
+  rewrite H2, G, G2. cbn [bind]. repeat split; reflexivity.
 Qed.
 
 Theorem ETS_no_params : forall eo ty,
@@ -2566,14 +2585,17 @@ Record fiber_params_ok (o : obj) (ol : option (list json * list json)) (orr : op
   fp_r : r_ok orr
 }.
 
-Lemma fiber_forward : forall ty o ol orr, is_roadm ty = false -> fiber_params_ok o ol orr ->
+Lemma is_band_roadm : forall ty, is_band ty = false -> is_roadm ty = false.
+Proof. intros ty H. unfold is_band, is_roadm in *. now apply orb_false_iff in H as [H _]. Qed.
+
+Lemma fiber_forward : forall ty o ol orr, is_band ty = false -> fiber_params_ok o ol orr ->
   chain (PF ty) (o ++ lblk ol ++ rblk orr) = Ok (o ++ lout ol ++ rout orr).
 Proof.
-  intros ty o ol orr Hty [Hl H1 H2 H3 H4 H5]. unfold PF. rewrite chain_cons.
+  intros ty o ol orr Hb [Hl H1 H2 H3 H4 H5]. pose proof (is_band_roadm ty Hb) as Hty. unfold PF. rewrite chain_cons.
   assert (Hlum : lumped_ok (o ++ lblk ol ++ rblk orr)).
   { unfold lumped_ok in *. now rewrite !jget_app, jget_lblk_other, jget_rblk_other by reflexivity;
       destruct (jget "lumped_losses" o). }
-  rewrite (P2_id _ Hlum). cbn [bind]. rewrite chain_cons. unfold P4, P5. rewrite Hty. cbn [bind].
+  rewrite (P2_id _ Hlum). cbn [bind]. rewrite chain_cons. unfold P4, P5. rewrite Hty, Hb. cbn [bind].
   rewrite chain_cons. cbn [bind]. rewrite chain_cons.
   rewrite (loss_fwd o (rblk orr) ol H4 H1 (jget_rblk_other K_losspf _ eq_refl)).
   - cbn [bind]. rewrite chain_cons.
@@ -2583,10 +2605,11 @@ Proof.
     rewrite jget_rblk_other by reflexivity. discriminate.
 Qed.
 
-Lemma fiber_backward : forall ty o ol orr, is_roadm ty = false -> fiber_params_ok o ol orr ->
+Lemma fiber_backward : forall ty o ol orr, is_band ty = false -> fiber_params_ok o ol orr ->
   chain (PB ty) (o ++ lout ol ++ rout orr) = Ok (o ++ lblk ol ++ rblk orr).
 Proof.
-  intros ty o ol orr Hty [Hl H1 H2 H3 H4 H5]. unfold PB. rewrite chain_cons. unfold Q1, Q2. rewrite Hty. cbn [bind].
+  intros ty o ol orr Hb [Hl H1 H2 H3 H4 H5]. pose proof (is_band_roadm ty Hb) as Hty.
+  unfold PB. rewrite chain_cons. unfold Q1, Q2. rewrite Hty, Hb. cbn [bind].
   rewrite chain_cons. cbn [bind]. rewrite chain_cons.
   rewrite (back_loss_fwd o (rout orr) ol H4 H1 (jget_rout_other K_losspf _ eq_refl)).
   - cbn [bind]. rewrite chain_cons.
@@ -2609,7 +2632,7 @@ Proof.
   - now apply r_ok_n.
 Qed.
 
-Theorem PT_fiber : forall ty o ol orr, is_roadm ty = false -> fiber_params_ok o ol orr ->
+Theorem PT_fiber : forall ty o ol orr, is_band ty = false -> fiber_params_ok o ol orr ->
   PT ty (o ++ lblk ol ++ rblk orr) (o ++ lout ol ++ rout orr).
 Proof.
   intros ty o ol orr Hty H. split; [|split].
@@ -2778,7 +2801,8 @@ Proof.
   assert (Hlum : lumped_ok (o ++ dblocks o1 o2 o3 ++ bblk ob)).
   { unfold lumped_ok in *. rewrite !jget_app, jget_dblocks_other, jget_bblk_other by reflexivity.
     now destruct (jget "lumped_losses" o). }
-  rewrite (P2_id _ Hlum). cbn [bind]. rewrite chain_cons. unfold P4, P5. rewrite Hty.
+  assert (Hb : is_band ty = true) by (unfold is_band, is_roadm in *; now rewrite Hty).
+  rewrite (P2_id _ Hlum). cbn [bind]. rewrite chain_cons. unfold P4, P5. rewrite Hty, Hb.
   rewrite (degree_fwd o (bblk ob) o1 o2 o3 A1 A2 A3 A4) by (try assumption; apply jget_bblk_other; reflexivity).
   cbn [bind]. rewrite chain_cons.
   rewrite (design_fwd o (dout o1 o2 o3) ob Kb A5 A6) by (apply jget_dout_other; reflexivity).
@@ -2794,7 +2818,8 @@ Lemma roadm_backward : forall ty o o1 o2 o3 ob, is_roadm ty = true -> roadm_para
   chain (PB ty) (o ++ dout o1 o2 o3 ++ bout ob) = Ok (o ++ dblocks o1 o2 o3 ++ bblk ob).
 Proof.
   intros ty o o1 o2 o3 ob Hty [Hl A1 A2 A3 A4 A5 A6 A7 A8 A9 K1 K2 K3 Kb]. unfold PB. rewrite chain_cons.
-  unfold Q1, Q2. rewrite Hty.
+  assert (Hb : is_band ty = true) by (unfold is_band, is_roadm in *; now rewrite Hty).
+  unfold Q1, Q2. rewrite Hty, Hb.
   rewrite (back_degree_fwd o (bout ob) o1 o2 o3 A1 A2 A3 A4) by (try assumption; apply jget_bout_other; reflexivity).
   cbn [bind]. rewrite chain_cons.
   rewrite (back_design_fwd o (dblocks o1 o2 o3) ob Kb A5 A6) by (apply jget_dblocks_other; reflexivity).
@@ -2857,4 +2882,52 @@ Proof.
   - apply jget_jset_same.
   - rewrite jget_jset_other by reflexivity. apply jget_jdel_same.
   - intros k H1 H2. rewrite jget_jset_other by exact H1. now apply jget_jdel_other.
+Qed.
+
+(* ---- params of a Transceiver: anything, then the optional per-degree design bands ---- *)
+Record trx_params_ok (o : obj) (ob : option obj) : Prop := {
+  tp_lumped : lumped_ok o;
+  tp_db : jget K_pddb o = None; tp_dbt : jget K_pddbt o = None;
+  tp_losspf : jget K_losspf o = None; tp_raman : jget K_raman o = None; tp_loss : not_obj (jget K_loss o);
+  tp_ib : items_ok ob
+}.
+Lemma trx_forward : forall o ob, trx_params_ok o ob -> chain (PF K_trx) (o ++ bblk ob) = Ok (o ++ bout ob).
+Proof.
+  intros o ob [Hl A5 A6 A7 A8 A9 Kb]. unfold PF. rewrite chain_cons.
+  assert (Hlum : lumped_ok (o ++ bblk ob)).
+  { unfold lumped_ok in *. rewrite jget_app, jget_bblk_other by reflexivity. now destruct (jget "lumped_losses" o). }
+  rewrite (P2_id _ Hlum). cbn [bind]. rewrite chain_cons. unfold P4, P5.
+  change (is_roadm K_trx) with false. change (is_band K_trx) with true. cbn [bind]. rewrite chain_cons.
+  replace (o ++ bblk ob) with (o ++ bblk ob ++ []) by now rewrite app_nil_r.
+  rewrite (design_fwd o [] ob Kb A5 A6 eq_refl eq_refl). cbn [bind app]. rewrite chain_cons.
+  rewrite loss_params_id.
+  - cbn [bind]. rewrite chain_cons. rewrite raman_params_id; [reflexivity|].
+    now rewrite jget_app, A8, jget_bout_other by reflexivity.
+  - unfold not_obj in *. rewrite jget_app. destruct (jget K_loss o); [exact A9|].
+    rewrite jget_bout_other by reflexivity. discriminate.
+Qed.
+Lemma trx_backward : forall o ob, trx_params_ok o ob -> chain (PB K_trx) (o ++ bout ob) = Ok (o ++ bblk ob).
+Proof.
+  intros o ob [Hl A5 A6 A7 A8 A9 Kb]. unfold PB. rewrite chain_cons. unfold Q1, Q2.
+  change (is_roadm K_trx) with false. change (is_band K_trx) with true. cbn [bind]. rewrite chain_cons.
+  replace (o ++ bout ob) with (o ++ bout ob ++ []) by now rewrite app_nil_r.
+  rewrite (back_design_fwd o [] ob Kb A5 A6 eq_refl eq_refl). cbn [bind app]. rewrite chain_cons.
+  rewrite back_loss_params_id by (now rewrite jget_app, A7, jget_bblk_other by reflexivity).
+  cbn [bind]. rewrite chain_cons.
+  rewrite back_raman_params_id by (now rewrite jget_app, A8, jget_bblk_other by reflexivity).
+  reflexivity.
+Qed.
+Theorem PT_trx : forall o ob, trx_params_ok o ob -> PT K_trx (o ++ bblk ob) (o ++ bout ob).
+Proof.
+  intros o ob H. split; [|split].
+  - now apply trx_forward.
+  - rewrite !nmap_app, nmap_bblk, nmap_bout. apply trx_forward.
+    destruct H as [Hl A5 A6 A7 A8 A9 Kb]. constructor; try (now apply jget_nmap_none).
+    + now apply lumped_ok_n2e.
+    + unfold not_obj in *. intros lc. rewrite jget_nmap. destruct (jget K_loss o) as [v|]; [|discriminate].
+      cbn [option_map]. destruct v as [| | | |l|lc0]; try discriminate.
+      * cbn. destruct l as [|[] [|]]; discriminate.
+      * now elim (A9 lc0).
+    + now apply items_ok_n.
+  - now apply trx_backward.
 Qed.
